@@ -238,7 +238,7 @@ def run_shard(spec, seed, tier):
         for bucket, (case, msg) in first.items():
             res.add_violation(case, msg, bucket)
         return res
-    n = 160 if tier == "quick" else 2500
+    n = 160 if tier == "quick" else 1200
     if spec["scheme"] == "CGKO06.SSE2":
         n = n // 2
     hyp.search(res, S.st_scheme_case(spec["scheme"], max_total=120), body, seed, n)
